@@ -295,6 +295,7 @@ def run_file(datadir, fname, cases):
         bo = np.asarray(bk.byte_offsets)
         events = [bytes(data[bo[i]:bo[i + 1]]) for i in range(n)]
         one_cache = {}
+        checked_one = set()
         for ci, c in enumerate(bc["repart"]):
             parts, a, b = c["parts"], c["a"], c["b"]
             case("repart", k, parts, a, b)
@@ -340,8 +341,13 @@ def run_file(datadir, fname, cases):
             want_counts = [0 if j < 0 else bc["counts"][j] for j in layout]
             one_counts = [int(x) for x in ak.num(one, axis=1)]
             if one_counts != want_counts:
-                mm("synth-one-basket-counts", k, [layout], {"type_equal": True, "values_equal": False,
-                                                            "got_type": str(one_counts), "want_type": str(want_counts)})
+                mm("synth-one-basket-counts", k, [layout[:40], len(layout)], {"type_equal": True, "values_equal": False,
+                                                            "got_type": str(one_counts)[:300], "want_type": str(want_counts)[:300]})
+            if all(j >= 0 for j in layout) and key1 not in checked_one:
+                checked_one.add(key1)
+                dd = compare(one, full[k][np.array(layout)])
+                if dd:
+                    mm("synth-one-basket-values", k, [layout[:40], len(layout)], dd)
             d = compare(got, one[a:b])
             rec = {"branch": k, "synth": ci, "asked": asked, "boffs": {str(i): v for i, v in boffs.items()},
                    "counts": [int(x) for x in ak.num(got, axis=1)]}
@@ -352,7 +358,7 @@ def run_file(datadir, fname, cases):
                 offs = np.cumsum([0] + parts)
                 sel = loaded_baskets([int(x) for x in offs], a, b)
                 d["all_empty_basket_selected"] = any(all(layout[j] < 0 for j in range(offs[i], offs[i + 1])) for i in sel)
-                mm("synth", k, [layout, parts, a, b], d)
+                mm("synth", k, [layout if len(layout) <= 40 else layout[:40] + ["...", len(layout)], parts, a, b], d)
             repart.append(rec)
     return {"file": fname, "n": n, "mismatches": mism, "evaluations": n_eval, "hashes": hashes, "repart": repart,
             "chunk_lens": chunk_lens, "pybes3": pybes3.__file__}
